@@ -261,15 +261,21 @@ def chk_roi(a, b, roi, slack=Fr(0)):
     if rb is None:
         return False, "other not on grid"
     ny, nx = int(a.shape[0]), int(a.shape[1])
-    want_x = [i for i in range(nx) if rb[0] <= i < rb[2]]
-    want_y = [j for j in range(ny) if rb[1] <= j < rb[3]]
-    got_x = np.arange(nx)[roi[1]].tolist()
-    got_y = np.arange(ny)[roi[0]].tolist()
+    # Python's range[...] has exactly the slice semantics of numpy basic indexing, at any size
+    want_x = range(max(0, rb[0]), max(max(0, rb[0]), min(nx, rb[2])))
+    want_y = range(max(0, rb[1]), max(max(0, rb[1]), min(ny, rb[3])))
+    got_x = range(nx)[roi[1]]
+    got_y = range(ny)[roi[0]]
+
+    def norm(rg):
+        return None if len(rg) == 0 else (rg.start, rg.stop, rg.step)
+
     # as a set of pixels: empty if either axis is empty
-    want = (want_y, want_x) if want_x and want_y else None
-    got = (got_y, got_x) if got_x and got_y else None
+    want = (norm(want_y), norm(want_x)) if len(want_x) and len(want_y) else None
+    got = (norm(got_y), norm(got_x)) if len(got_x) and len(got_y) else None
     if want != got:
-        return False, f"roi {roi} selects rows {got_y} cols {got_x} of a {ny}x{nx} geobox; shared are rows {want_y} cols {want_x}"
+        return False, (f"roi {roi} selects rows {got_y} cols {got_x} of a {ny}x{nx} geobox; "
+                       f"shared are rows {want_y} cols {want_x}")
     return True, ""
 
 
@@ -378,6 +384,8 @@ def run(R: Run):
         R.oracle(ok, key, case, what, sig=sig, trivial=trivial)
         return ok
 
+    run_corpus(R)
+
     # ---------------------------------------------------------------- A. constants
     p = inspect.signature(np.isclose).parameters
     rtol, atol = p["rtol"].default, p["atol"].default
@@ -395,6 +403,18 @@ def run(R: Run):
     for n in range(-3, 4):
         for e in eps_list:
             xs += [n + e, n - e]
+    n_sys = len(xs)
+    # just off integers / half-integers / the tolerance, at every scale a "snap almost-ints" clean-up could use
+    DELTAS = [1e-6, 1e-9, 1e-10, 1e-11, 1e-13, 2.0**-40, 2.0**-52]
+    for k in (0, 1, -1, 2, 7, -13, 1000, 2**31, 2**40):
+        for h in (0.0, 0.5):
+            for d in DELTAS:
+                xs += [k + h + d, k + h - d, math.nextafter(k + h, math.inf), math.nextafter(k + h, -math.inf)]
+    for d in DELTAS:
+        xs += [TOL + d, TOL - d, -TOL + d, 0.5 * d]
+    # extremes: every helper must cope with the whole double range (huge values are integers)
+    xs += [1e308, -1e308, 1.7976931348623157e308, -1.7976931348623157e308, 5e-324, -5e-324, 2.0**53, 2.0**53 + 2,
+           2.0**52 + 0.5, -(2.0**52) - 0.5, 2.0**52 - 0.5, 2.0**63, 2.0**64, 2.0**100, 1e22, 4503599627370495.5]
     for _ in range(R.pick(600, 6000)):
         r = rng.random()
         n = rng.randint(-1000, 1000)
@@ -407,7 +427,6 @@ def run(R: Run):
         else:
             xs.append(n + rng.randint(-8, 8) / 8)
     tols = [TOL, 0.01, 0.5, 0.75, 2.0**-20, 0.25]
-    n_sys = 2 * 7 * len(eps_list)
     for ix, x in enumerate(xs):
         fx = Fr(x)
         kind = "int" if fx.denominator == 1 else "half" if fx.denominator == 2 else "frac"
@@ -433,23 +452,38 @@ def run(R: Run):
         y = x - round(x)
         R.corr(f"c16 mzero {frac_s(y)} {frac_s(TOL)}", lambda: frac_s(MM.maybe_zero(y, TOL)), sig="mzero")
 
+    for v in (math.inf, -math.inf, math.nan):
+        R.oracle(MM.is_almost_int(v, TOL) is False, "non-finite-helper", {"fn": "is_almost_int", "x": repr(v)},
+                 "is_almost_int of a non-finite number is not False", trivial=True)
+        w_, p_ = MM.split_float(v)
+        R.oracle((w_ == v or (w_ != w_ and v != v)) and p_ == 0, "non-finite-helper", {"fn": "split_float", "x": repr(v)},
+                 f"split_float({v}) = {(w_, p_)}", trivial=True)
+
     # ---------------------------------------------------------------- C. BoundingBox laws
+    HUGE = [2**31 - 1, 2**31, 2**31 + 1, 2**53 - 3, 2**53, 2**53 + 1, 2**53 + 3, 2**63, 2**63 + 1, 2**64, 2**64 + 1, 2**100,
+            2**100 + 1]
+    XTRM = [1e308, -1e308, 1.7976931348623157e308, -1.7976931348623157e308, 5e-324, -5e-324, 0.0, 1e-300, -1e-300]
+
     def rnd_box(grid, tag=None):
-        if grid:
-            v = [Fr(rng.randint(-6, 6), 2) for _ in range(4)]
+        tag = tag if tag is not None else rng.choice(["N", "1", "1", "1", "2"])
+        if grid == "huge":  # Python ints beyond 2**53: a float detour would lose them
+            v = [rng.choice([-1, 1]) * (rng.choice(HUGE) + rng.randint(-2, 2)) for _ in range(4)]
+        elif grid == "xtrm":
+            v = [rng.choice(XTRM) for _ in range(4)]
+        elif grid:
+            v = [float(Fr(rng.randint(-6, 6), 2)) for _ in range(4)]
         else:
-            v = [Fr(rng.uniform(-1e6, 1e6)) for _ in range(4)]
+            v = [rng.uniform(-1e6, 1e6) for _ in range(4)]
         l, r = sorted(v[:2]) if rng.random() < 0.9 else v[:2]
         b, t = sorted(v[2:]) if rng.random() < 0.9 else v[2:]
-        tag = tag if tag is not None else rng.choice(["N", "1", "1", "1", "2"])
-        return BoundingBox(float(l), float(b), float(r), float(t), crs_of(tag))
+        return BoundingBox(l, b, r, t, crs_of(tag))
 
     def contains_pt(bb, pt):
         return bb.left <= pt[0] <= bb.right and bb.bottom <= pt[1] <= bb.top
 
     grid_pts = [(x / 2, y / 2) for x in range(-7, 8, 1) for y in range(-7, 8, 3)]
     for it in range(R.pick(1500, 15000)):
-        grid = it % 3 != 0
+        grid = [False, True, True, "huge", True, "xtrm", True, True][it % 8]
         same = rng.random() < 0.85
         tg = rng.choice(["N", "1", "2"])
         a, b, c = (rnd_box(grid, tg if same else None) for _ in range(3))
@@ -468,8 +502,13 @@ def run(R: Run):
                 ("inter-contained", i.left >= max(a.left, b.left) and i.right <= min(a.right, b.right)
                  and i.bottom >= max(a.bottom, b.bottom) and i.top <= min(a.top, b.top)),
                 ("nary", bbox_union([a, b, c]) == ((a | b) | c) and bbox_intersection([a, b, c]) == ((a & b) & c)),
+                # two-sided: the result is pinned exactly (exact integer / Fraction re-computation)
+                ("union-exact", tuple(map(Fr, u.bbox)) == (min(Fr(a.left), Fr(b.left)), min(Fr(a.bottom), Fr(b.bottom)),
+                                                           max(Fr(a.right), Fr(b.right)), max(Fr(a.top), Fr(b.top)))),
+                ("inter-exact", tuple(map(Fr, i.bbox)) == (max(Fr(a.left), Fr(b.left)), max(Fr(a.bottom), Fr(b.bottom)),
+                                                           min(Fr(a.right), Fr(b.right)), min(Fr(a.top), Fr(b.top)))),
             ]
-            if grid:
+            if grid is True:
                 laws.append(("point-sets", all(
                     (contains_pt(i, q) == (contains_pt(a, q) and contains_pt(b, q)))
                     and (not (contains_pt(a, q) or contains_pt(b, q)) or contains_pt(u, q)) for q in grid_pts)))
@@ -478,14 +517,18 @@ def run(R: Run):
     for _ in range(R.pick(400, 4000)):
         k = rng.choice([0, 1, 2, 3, 4])
         tg = rng.choice(["N", "1"])
-        bbs = [rnd_box(True, tg if rng.random() < 0.93 else None) for _ in range(k)]
+        bbs = [rnd_box(rng.choice([True, True, "huge"]), tg if rng.random() < 0.93 else None) for _ in range(k)]
         R.corr(f"c16 bbu {list_s(bbs, enc_bb)}", real(lambda: enc_bb(bbox_union(iter(bbs)))), sig=None)
         R.corr(f"c16 bbi {list_s(bbs, enc_bb)}", real(lambda: enc_bb(bbox_intersection(iter(bbs)))), sig=None)
     # round / transform
     dy_aff = [(1, 0, 0, 0, 1, 0), (2, 0, 1, 0, -2, 3), (0, -1, 2, 1, 0, 0), (1, -1, 0, 1, 1, 0), (-0.5, 0, 3, 0, 0.25, -1),
               (3, -4, 1, 4, 3, 2), (1, 0.5, 0, 0, 1, 0), (0, 0, 1, 0, 0, 2), (1, 2, 0, 2, 4, 0)]
     for it in range(R.pick(600, 6000)):
-        bb = rnd_box(True, "N") if it % 2 else BoundingBox(*[rng.randint(-4000, 4000) / 16 for _ in range(4)], None)
+        if it % 4 == 3:
+            bb = BoundingBox(*[rng.randint(-50, 50) + rng.choice([0.0, 0.5]) + rng.choice([-1, 1]) * rng.choice(DELTAS)
+                               for _ in range(4)], None)
+        else:
+            bb = rnd_box(True, "N") if it % 2 else BoundingBox(*[rng.randint(-4000, 4000) / 16 for _ in range(4)], None)
         res = []
 
         def f_round():
@@ -500,6 +543,8 @@ def run(R: Run):
                   and o.bottom <= bb.bottom < o.bottom + 1 and o.right - 1 < bb.right <= o.right
                   and o.top - 1 < bb.top <= o.top)
             R.oracle(ok, "bbox-round-contract", {"bb": enc_bb(bb)}, f"{bb} rounds to {o}")
+        if it % 4 == 3:
+            bb = rnd_box(True, "N")
         A = Affine(*rng.choice(dy_aff))
         res2 = []
 
@@ -519,6 +564,10 @@ def run(R: Run):
                 w = fa_apply(FA, q)
                 ok = ok and Fr(o.left) <= w[0] <= Fr(o.right) and Fr(o.bottom) <= w[1] <= Fr(o.top)
             R.oracle(ok, "bbox-transform-covers", {"bb": enc_bb(bb), "A": enc_aff(A)}, f"{bb} through {A!r} gives {o}")
+            cs = [fa_apply(FA, (Fr(x_), Fr(y_))) for x_ in (bb.left, bb.right) for y_ in (bb.bottom, bb.top)]
+            want_bb = (min(c_[0] for c_ in cs), min(c_[1] for c_ in cs), max(c_[0] for c_ in cs), max(c_[1] for c_ in cs))
+            R.oracle(tuple(map(Fr, o.bbox)) == want_bb, "bbox-transform-exact", {"bb": enc_bb(bb), "A": enc_aff(A)},
+                     f"{bb} through {A!r} gives {o}, exact bounding box of the corners is {tuple(map(float, want_bb))}")
 
     # ---------------------------------------------------------------- D. thresholds: pixel_translation / bbox in pixel domain
     t1, t0, tp = Fr(atol + rtol * abs(1.0)), Fr(atol + rtol * abs(0.0)), Fr(TOL)
@@ -531,7 +580,9 @@ def run(R: Run):
     d0 = [Fr(0)] + [s * v for v in straddle(t0, 58) for s in (1, -1)]
     eps = [Fr(0)] + [s * v for v in straddle(tp, 45) for s in (1, -1)]
     offs = [Fr(3), Fr(-2), Fr(1, 2), Fr(-1, 2), Fr(5, 2), Fr(7, 2), Fr(-3, 2), Fr(1, 4), Fr(3, 4), Fr(1, 100)] + \
-           [n + e for n in (0, 2, -1) for e in eps[1:]] + [Fr(1, 2) + s * Fr(1, 2**30) for s in (1, -1)]
+           [n + e for n in (0, 2, -1) for e in eps[1:]] + [Fr(1, 2) + s * Fr(1, 2**30) for s in (1, -1)] + \
+           [k_ + h_ + sg_ * Fr(d_) for k_ in (0, 3) for h_ in (0, Fr(1, 2)) for sg_ in (1, -1)
+            for d_ in (1e-6, 1e-9, 1e-10, 1e-11, 1e-13, 2.0**-40)] + [Fr(2**40 + 1), Fr(2**52 + 1), Fr(-(2**45) - 3)]
     lin_vars = [(a, Fr(0), Fr(0), Fr(0)) for a in d1] + [(Fr(0), b, Fr(0), Fr(0)) for b in d0[1:]] + \
                [(Fr(0), Fr(0), c, Fr(0)) for c in d0[1:]] + [(Fr(0), Fr(0), Fr(0), d) for d in d1[1:]] + \
                [(d1[1], d0[1], d0[3], d1[3]), (d1[2], Fr(0), Fr(0), Fr(0) + d1[1]), (Fr(1), Fr(0), Fr(0), Fr(1)),
@@ -545,9 +596,10 @@ def run(R: Run):
         M = (1 + lv[0], lv[1], Fr(tx), lv[2], 1 + lv[3], Fr(ty))
         ref = mk_gbox(B, 5, 6, tagB)
         g = mk_gbox(fa_mul(B, M), shape[0], shape[1], tagA)
-        if ref is None or g is None or not exact_pair(g, ref) or not exact_pair(ref, g):
+        if ref is None or g is None or not exact_pair(g, ref) or not exact_pair(ref, ref):
             stats["inexact-skipped"] += 1
             return
+        rev_exact = exact_pair(ref, g) and exact_pair(g, g)
         lin_ok = abs(lv[0]) <= t1 and abs(lv[3]) <= t1 and abs(lv[1]) <= t0 and abs(lv[2]) <= t0
         sub = max(abs(Fr(v) - round(Fr(v))) for v in (tx, ty))
         sg = ("crs" if tagA != tagB else "lin-ok" if lin_ok else "lin-bad") + (
@@ -558,6 +610,9 @@ def run(R: Run):
         R.oracle(out.startswith("ERR") == (not lin_ok or tagA != tagB), "pixel-translation-acceptance",
                  {"g": gb_dict(g), "ref": gb_dict(ref)},
                  f"pixel_translation gave {out}; linear part within isclose thresholds: {lin_ok}, crs equal: {tagA == tagB}")
+        if not out.startswith("ERR"):  # two-sided: the translation itself, exactly
+            R.oracle(out == f"{frac_s(Fr(tx))} {frac_s(Fr(ty))}", "pixel-translation-value",
+                     {"g": gb_dict(g), "ref": gb_dict(ref)}, f"pixel_translation gave {out}, exact is {Fr(tx)} {Fr(ty)}")
         for tol in roi_tols if (lin_ok and tagA == tagB) else [TOL]:
             out = R.corr(f"c16 bbpd {ga} {gr} {frac_s(tol)}",
                          real(lambda: enc_bb(GBm.bounding_box_in_pixel_domain(g, ref, tol))), sig=f"bbpd|{nm}|{sg}")
@@ -565,9 +620,17 @@ def run(R: Run):
             R.oracle(out.startswith("ERR") != accept, "incompatible-grid-acceptance",
                      {"g": gb_dict(g), "ref": gb_dict(ref), "tol": tol},
                      f"bounding_box_in_pixel_domain gave {out}; sub-pixel offset {float(sub)}, tol {tol}, linear ok {lin_ok}")
+            if not out.startswith("ERR"):  # two-sided: whole-pixel offset = nearest integer (ties to even), + shape
+                kx, ky = round(Fr(tx)), round(Fr(ty))
+                want_bb = f"{kx};{ky};{kx + shape[1]};{ky + shape[0]};N"
+                R.oracle(out == want_bb, "bbox-in-pixel-domain-value", {"g": gb_dict(g), "ref": gb_dict(ref), "tol": tol},
+                         f"bounding_box_in_pixel_domain gave {out}, exact is {want_bb}")
             R.corr(f"c16 roi {gr} {ga} {frac_s(tol)}", real(lambda: enc_roi(ref.overlap_roi(g, tol))),
                    sig=f"roi-tol|{nm}|{sg}")
         for op, x, y in (("or", ref, g), ("and", ref, g), ("or", g, ref), ("snap", ref, g), ("snap", g, ref)):
+            if x is g and not rev_exact:
+                stats["inexact-skipped"] += 1
+                continue
             res = []
 
             def ff():
@@ -1083,57 +1146,81 @@ def searcher(R: Run, mismatches):
 
 
 # ------------------------------------------------------------------ replay
+def eval_case(key, case, verbose=False):
+    """re-evaluate the property predicate of a recorded case on the real code -> (ok, what) or None"""
+    say = print if verbose else (lambda *a, **k: None)
+    sl = Fr(1, 10**6) if case.get("float") else Fr(0)
+    if key == "enclosing-cross-crs-curved-edge":
+        return curved_edge_case(gb_from(case["g"]), tuple(case["bbox"]))
+    if "a" in case and "b" in case and key in ("overlap-roi-not-shared-pixels",):
+        a, b = gb_from(case["a"]), gb_from(case["b"])
+        roi = a.overlap_roi(b)
+        say("a.overlap_roi(b) =", roi, "  a & b =", a & b)
+        return chk_roi(a, b, roi, sl)
+    if "a" in case and "b" in case and key in ("union-not-smallest-containing", "inter-not-shared-pixels",
+                                               "not-commutative"):
+        a, b = gb_from(case["a"]), gb_from(case["b"])
+        u, i = a | b, a & b
+        say("a | b =", u, "\na & b =", i)
+        ok1, w1 = chk_union([a, b], u, sl)
+        ok2, w2 = chk_inter([a, b], i, sl)
+        ok3 = same_gbox(u, b | a, sl) and same_gbox(i, b & a, sl)
+        return ok1 and ok2 and ok3, "; ".join(x for x in (w1, w2, "" if ok3 else "not commutative") if x)
+    if "gs" in case:
+        from odc.geo.geobox import geobox_intersection_conservative, geobox_union_conservative
+
+        gs = [gb_from(d) for d in case["gs"]]
+        u, i = geobox_union_conservative(gs), geobox_intersection_conservative(gs)
+        say("union =", u, "\nintersection =", i)
+        ok1, w1 = chk_union(gs, u, sl)
+        ok2, w2 = chk_inter(gs, i, sl)
+        a, b, c = gs[:3]
+        ok3 = same_gbox((a | b) | c, a | (b | c), sl) and same_gbox((a & b) & c, a & (b & c), sl)
+        return ok1 and ok2 and ok3, "; ".join(x for x in (w1, w2, "" if ok3 else "not associative") if x)
+    if case.get("op") == "encl":
+        from odc.geo import geom as GM
+
+        g = gb_from(case["g"])
+        r = g.enclosing(GM.multipoint([tuple(p) for p in case["pts"]], case["crs"]))
+        say("enclosing =", r)
+        return chk_enclosing(g, [tuple(p) for p in case["pts"]], r, sl)
+    if case.get("op") == "snap":
+        a, b = gb_from(case["a"]), gb_from(case["b"])
+        r = a.snap_to(b)
+        say("a.snap_to(b) =", r)
+        return chk_snap(a, b, r, sl)
+    return None
+
+
+def run_corpus(R: Run):
+    """minimised past failures (corpus/C16/*.json) are evaluated first on every run"""
+    import json
+    from pathlib import Path
+
+    d = Path(__file__).resolve().parent.parent / "corpus" / "C16"
+    for f in sorted(d.glob("*.json")) if d.is_dir() else []:
+        rec = json.loads(f.read_text())
+        try:
+            res = eval_case(rec["key"], rec["case"])
+        except Exception as e:  # pylint: disable=broad-except
+            res = (False, f"real code raised {e!r}")
+        if res is not None:
+            R.oracle(res[0], rec["key"], rec["case"], res[1], sig="corpus")
+
+
 def replay(R: Run, rec) -> int:
     case = rec.get("case") or {}
     key = rec.get("key", "")
     print("replay key:", key)
     print("replay case:", case)
-    sl = Fr(1, 10**6) if case.get("float") else Fr(0)
     try:
-        if key == "enclosing-cross-crs-curved-edge":
-            ok, what = curved_edge_case(gb_from(case["g"]), tuple(case["bbox"]))
-        elif "a" in case and "b" in case and key in ("overlap-roi-not-shared-pixels",):
-            a, b = gb_from(case["a"]), gb_from(case["b"])
-            roi = a.overlap_roi(b)
-            print("a.overlap_roi(b) =", roi, "  a & b =", a & b)
-            ok, what = chk_roi(a, b, roi, sl)
-        elif "a" in case and "b" in case and key in ("union-not-smallest-containing", "inter-not-shared-pixels",
-                                                     "not-commutative"):
-            a, b = gb_from(case["a"]), gb_from(case["b"])
-            u, i = a | b, a & b
-            print("a | b =", u, "\na & b =", i)
-            ok1, w1 = chk_union([a, b], u, sl)
-            ok2, w2 = chk_inter([a, b], i, sl)
-            ok3 = same_gbox(u, b | a, sl) and same_gbox(i, b & a, sl)
-            ok, what = ok1 and ok2 and ok3, "; ".join(x for x in (w1, w2, "" if ok3 else "not commutative") if x)
-        elif "gs" in case:
-            from odc.geo.geobox import geobox_intersection_conservative, geobox_union_conservative
-
-            gs = [gb_from(d) for d in case["gs"]]
-            u, i = geobox_union_conservative(gs), geobox_intersection_conservative(gs)
-            print("union =", u, "\nintersection =", i)
-            ok1, w1 = chk_union(gs, u, sl)
-            ok2, w2 = chk_inter(gs, i, sl)
-            a, b, c = gs[:3]
-            ok3 = same_gbox((a | b) | c, a | (b | c), sl) and same_gbox((a & b) & c, a & (b & c), sl)
-            ok, what = ok1 and ok2 and ok3, "; ".join(x for x in (w1, w2, "" if ok3 else "not associative") if x)
-        elif case.get("op") == "encl":
-            from odc.geo import geom as GM
-
-            g = gb_from(case["g"])
-            r = g.enclosing(GM.multipoint([tuple(p) for p in case["pts"]], case["crs"]))
-            print("enclosing =", r)
-            ok, what = chk_enclosing(g, [tuple(p) for p in case["pts"]], r, sl)
-        elif case.get("op") == "snap":
-            a, b = gb_from(case["a"]), gb_from(case["b"])
-            r = a.snap_to(b)
-            print("a.snap_to(b) =", r)
-            ok, what = chk_snap(a, b, r, sl)
-        else:
-            print("no specific replay for this key; re-run the check with the recorded seed/tier")
-            return 0
+        res = eval_case(key, case, verbose=True)
     except Exception as e:  # pylint: disable=broad-except
         print("real code raised:", repr(e))
         return 1
+    if res is None:
+        print("no specific replay for this key; re-run the check with the recorded seed/tier")
+        return 0
+    ok, what = res
     print("property holds on this input" if ok else "STILL FAILS: " + what)
     return 0 if ok else 1
